@@ -5,10 +5,26 @@ ROOT = os.path.dirname(os.path.dirname(os.path.abspath(__file__)))
 BASELINE_OFF = "cd /repo && env -u OFFSCALE_CDD_PYTHON_VERIF /venv/bin/python -m pytest -ra -q -p no:cacheprovider --timeout=900 --continue-on-collection-errors"
 
 # id -> (technique, level text, level note, design ref)
+NOTE = "Trusts CPython (ast, inspect, argparse, tokenize, audit hooks, sys.monitoring), icontract, jsonschema and the harness' own generators/comparators; deviations whose mechanism key is listed as open in known_findings.json are reported as KNOWN-FINDING, anything else is a VIOLATION; a run whose deciding monitor never evaluated exits 2 (inconclusive)."
 CHECKS = {
- "C01": ("runtime contract (icontract postcondition) on the real docstring emitter, re-parse oracle over a generated class matrix + seeded random interfaces",
-         "Held on every emitter call observed: class-matrix (type kind x default kind x position) exhaustively plus seeded random interfaces x 3 styles x 8 flag combinations, each re-parsed twice; exploration, not proof — says nothing about interface shapes outside the generated classes.",
-         "Trusts CPython, icontract, the harness comparator (ircmp); deviations that match a mechanism listed in known_findings.json are reported as KNOWN-FINDING.", "3 C01"),
+ "C01": ("runtime contract (icontract postcondition) on the real docstring emitter; re-parse oracle; class-matrix + seeded random interfaces",
+         "Held on every emitter call observed: type-kind x default-kind x position matrix plus seeded random interfaces x 3 styles x emit_default_doc x emit_types x word_wrap, each re-parsed with prose defaults kept and stripped. Exploration: says nothing about interface shapes outside the generated classes.", NOTE, "3 C01"),
+ "C02": ("runtime contracts on the four real emitters (class, pydantic, function, argparse): render, re-read text, matching parser, IR comparison; render-stability monitor",
+         "Held on every emission observed over the signature-legal matrix + random interfaces x 3 docstring styles x emit_default_doc x type_annotations x kw-only; only the documented normalisations are applied.", NOTE, "3 C02"),
+ "C03": ("history monitor over conversion sequences: IR observed after every hop of a complete prefix tree (all sequences of length <= 3 over 5 formats) plus sampled length 4-5",
+         "Every node of the prefix tree equals the start, hence any two sequences commute, for every generated interface; exhaustive over sequences <= 3 per interface, sampled beyond.", NOTE, "3 C03"),
+ "C04": ("execution oracle: emitted source compiled and exec'd; class attributes/__annotations__, inspect.signature and a really populated ArgumentParser (+parse_args) compared with the description",
+         "CPython, inspect and argparse are the oracle for every emitted program over the executable domain x 4 emitters x options; unparse/re-parse AST equality (negative literals folded).", NOTE, "3 C04"),
+ "C05": ("runtime contracts on the three real SQLAlchemy emitters: re-parse with the matching parser, primary_key keyword count, cross-variant agreement",
+         "Held for every emission observed over the SQL-representable domain x 3 variants x 3 styles x force_pk_id, with declared / inferred / ambiguous primary keys and foreign keys.", NOTE, "3 C05"),
+ "C06": ("runtime contract on the real json_schema emitter with reference validators (jsonschema Draft 2020-12 meta-schema, instance validation of defaults, re.fullmatch on Literal patterns) and round trip through the real parser",
+         "Every emitted schema is validated against the 2020-12 meta-schema, required<->Optional, defaults against their own property schema, Literal patterns against members and near-miss probes, and parsed back.", NOTE, "3 C06"),
+ "C09": ("runtime contracts on the real cst_parse / cst_scanner (concatenation identity, line tiling); exhaustive token-sequence enumeration + repository files + seeded mutants",
+         "Exhaustive over all sequences of length <= 4 (quick) / <= 5 (thorough, 5.4 M strings) of a 22-token lexical alphabet, every repository .py file within the size bound, and seeded mutations; each checked for byte-exact reconstruction and line tiling.", NOTE, "3 C09"),
+ "C14": ("runtime contracts (shape invariant) on all ten real parser entry points; emitter-produced sources, grammar-generated docstrings, generated rich signatures, random token text",
+         "The documented IR shape is asserted on every parser return observed (hundreds of thousands in the thorough tier); function.parse additionally checked for 'every signature parameter exactly once'.", NOTE, "3 C14"),
+ "C18": ("import-history monitor: fresh interpreter per first module (audit hook records the import chain), ordered pairs by fork after the first import; public-name comparison between orders",
+         "Exhaustive over first imports of all non-test modules; ordered pairs sampled symmetrically (quick, 50%) or exhaustive (thorough, all ordered pairs).", NOTE, "3 C18"),
 }
 NOT_YET = {}
 
